@@ -114,3 +114,22 @@ CLAIMED['C12'] = dict(
          'TCP reserved/flags are checked against the RFC 3540 split (3 + 9 bits) the code implements, not the RFC 9293 one (4 + 8); '
          'icmpv6 DestinationUnreachable next_hop_mtu has no RFC counterpart.',
     technique='Coq proof (bit-list specification, locality + arithmetic bridge, finite sweeps) + differential testing of extracted model vs implementation + RFC bit-slice oracle')
+
+CLAIMED['C14'] = dict(
+    text='Coq theorems: for every message built per RFC 4884 (compliant length attribute in 32-/64-bit words with zero padding to the word and to 128 octets, or the legacy 128-octet convention), '
+         'ICMPv4 and ICMPv6, Time Exceeded and Destination Unreachable, any original datagram, any list of extension objects (any class/payload; MPLS stacks of any depth >= 1 with any label/EXP/S/TTL), '
+         'payload() returns the (word-padded) original datagram unchanged, extension() the extension structure, Extensions::try_from exactly the encoded objects and label-stack entries in order, under both parse modes; '
+         'for EVERY message and length octet payload and extension are disjoint in-order sub-ranges inside the message; both iterators return within len/4+1 steps without reading outside, for every buffer; no fault for any byte string. '
+         'Correspondence + oracle: all 255 length attributes x paddings x families, corruption stream, pointer-range checks on the real code.',
+    note='trusted: Coq kernel; hand-written model (Packet/IcmpExt.v) of the code AFTER the repairs C14_fix_1 (RFC 4884 length octet was multiplied in u8: quotations >= 256 octets wrapped / panicked) and C04_fix_2; '
+         'spec = RFC builder Packet/Rfc4884.v, tied to the Rust oracle builder on every run. An MPLS object with no label-stack entry makes Extensions::try_from return Err (the response is then dropped by the caller) - stated, not claimed as a defect.',
+    technique='Coq proof (induction over object / label lists, fuel-sufficiency lemmas, byte-local facts by 256-value vm_compute sweeps) + differential testing of extracted model vs implementation + builder-based oracle')
+
+CLAIMED['C04'] = dict(
+    text='PARTIAL until the receive-path slice is merged: Coq theorems for the trippy-packet half - for every packet view (19) and every buffer of at least the minimum size every non-mutating accessor / payload() / options / iterator returns without fault; '
+         'for ANY buffer a view is either rejected with an error value or all accessors succeed; the extension splitter, object / MPLS iterators and Extensions::try_from never fault and terminate within len/4+1 steps, for any bytes; '
+         'the strategy loop never faults for any response delivered at the Network interface (C09 c09_run_never_faults, incl. the Dublin/IPv6 payload-length sequence). '
+         'Correspondence: every accessor x structure-aware / random buffers, exhaustive sweeps of IHL, TCP data offset, RFC 4884 length octet, object lengths against every buffer length.',
+    note='trusted: Coq kernel; hand-written models Packet/Views.v, Packet/IcmpExt.v (after the repairs 62af4cc, 26a6dc2, 11fc74a) tied to the code by differential execution; no axioms. '
+         'The byte-level receive path of trippy-core net/ipv4.rs / ipv6.rs (recv_icmp_probe, extract_*) is being modelled separately; until it is merged that part is covered by the C09/C03 interface-level theorems only.',
+    technique='Coq proof (totality lemmas per accessor over checked slicing; fuel-sufficiency) + differential testing + panic oracle with exhaustive field-value x buffer-length sweeps')
